@@ -607,7 +607,7 @@ pub fn run_real(prop: &str, tier: &str, seed: u64, threads: usize, known: &Known
 }
 
 fn run_c12(tier: &str, seed: u64, threads: usize, known: &KnownFile) -> RealReport {
-    let n_random = if tier == "thorough" { 60_000 } else { 500 };
+    let n_random = if tier == "thorough" { 12_000 } else { 500 };
     let mut hs = systematic_histories();
     for i in 0..n_random {
         // two lanes: one that may produce the known triggers and one that steers around them
